@@ -46,6 +46,9 @@ type vc29Req struct {
 	Val   int    // index into vc29IntPool
 	Delay int
 	Burst bool // part of the opening burst: all clients issue it at the same moment (barrier)
+	KIdx  int    // setKeyed: which of the workload's fresh keyed indexes
+	CKey  string // setKeyed: column key (unique per client and step)
+	RKey  string // setKeyed: row key (unique per client and step)
 }
 
 func (r vc29Req) String() string {
@@ -57,6 +60,8 @@ func (r vc29Req) String() string {
 		return fmt.Sprintf("setT(t r%d %s ts=%q)", r.Row, col, vc29TSPool[r.TS])
 	case "clearT":
 		return fmt.Sprintf("clearT(t r%d %s)", r.Row, col)
+	case "setKeyed":
+		return fmt.Sprintf("setKeyed(index k%d: Set(%q, kf=%q) burst=%v)", r.KIdx, r.CKey, r.RKey, r.Burst)
 	case "setG":
 		return fmt.Sprintf("setG(g r%d %s burst=%v)", r.Row, col, r.Burst)
 	case "setM", "clearM", "setB":
@@ -315,6 +320,16 @@ func vc29Do(n *vgcNode, index string, r vc29Req) ([]vc29Sub, []vc29SubOut, error
 			return nil, nil, err
 		}
 		return perShardRow('b', res, r.Row, 2)
+	case "setKeyed":
+		// the first-ever column key of a fresh keyed index and the first-ever row key of its field
+		res, err := n.vgcQuery(vc29KeyedIndex(index, r.KIdx), fmt.Sprintf("Set(%q, kf=%q)", r.CKey, r.RKey))
+		if err != nil {
+			return nil, nil, fmt.Errorf("Set(%q, kf=%q): %v", r.CKey, r.RKey, err)
+		}
+		if len(res) != 1 || res[0] != true {
+			return nil, nil, fmt.Errorf("Set(%q, kf=%q) with a column key and a row key nobody else uses returned %v, want true (the bit cannot be set already)", r.CKey, r.RKey, res)
+		}
+		return nil, nil, nil
 	case "setG":
 		// field g has no fragment until the clients create them
 		res, err := q(fmt.Sprintf("Set(%d, g=%d)", col, r.Row))
@@ -507,6 +522,64 @@ func vc29FormatApiHistory(recs []vc29ApiRec, obj string) string {
 	return b.String()
 }
 
+const vc29NKeyed = 4
+
+func vc29KeyedIndex(index string, i int) string { return fmt.Sprintf("%sk%d", index, i) }
+
+// vc29CheckKeyed verifies the keyed indexes after the workload: every client
+// used its own column key and row key per index, so distinct keys must have
+// distinct ids, both directions of the translate store must agree, and
+// Row(kf=<row key>) must return exactly the client's column key.
+func vc29CheckKeyed(n *vgcNode, index string, i int, clients []int) error {
+	kidx := vc29KeyedIndex(index, i)
+	tf := n.Server.holder.translateFile
+	colIDs, rowIDs := map[uint64]string{}, map[uint64]string{}
+	for _, c := range clients {
+		ck, rk := fmt.Sprintf("c%d-%d", i, c), fmt.Sprintf("r%d-%d", i, c)
+		tf.mu.RLock()
+		var cid, rid uint64
+		var cok, rok bool
+		var cback, rback []byte
+		if idx := tf.cols[kidx]; idx != nil {
+			if cid, cok = idx.idByKey([]byte(ck)); cok {
+				cback, _ = idx.keyByID(cid)
+			}
+		}
+		if idx := tf.rows[fieldKey{kidx, "kf"}]; idx != nil {
+			if rid, rok = idx.idByKey([]byte(rk)); rok {
+				rback, _ = idx.keyByID(rid)
+			}
+		}
+		tf.mu.RUnlock()
+		if !cok || !rok {
+			return fmt.Errorf("index %s: after Set(%q, kf=%q) was acknowledged the translate store knows the column key: %v, the row key: %v", kidx, ck, rk, cok, rok)
+		}
+		if other, dup := colIDs[cid]; dup {
+			return fmt.Errorf("index %s: column keys %q and %q were both given id %d", kidx, other, ck, cid)
+		}
+		if other, dup := rowIDs[rid]; dup {
+			return fmt.Errorf("index %s field kf: row keys %q and %q were both given id %d", kidx, other, rk, rid)
+		}
+		colIDs[cid], rowIDs[rid] = ck, rk
+		if string(cback) != ck || string(rback) != rk {
+			return fmt.Errorf("index %s: column key %q -> id %d -> %q, row key %q -> id %d -> %q", kidx, ck, cid, cback, rk, rid, rback)
+		}
+		res, err := n.vgcQuery(kidx, fmt.Sprintf("Row(kf=%q)", rk))
+		if err != nil {
+			return fmt.Errorf("index %s: Row(kf=%q): %v", kidx, rk, err)
+		}
+		row, ok := res[0].(*Row)
+		if !ok || len(row.Keys) != 1 || row.Keys[0] != ck {
+			var keys []string
+			if ok {
+				keys = row.Keys
+			}
+			return fmt.Errorf("index %s: Row(kf=%q) returns column keys %q, want exactly [%q] (each client set one bit with keys of its own)", kidx, rk, keys, ck)
+		}
+	}
+	return nil
+}
+
 // vc29Barrier is a reusable spin barrier: the opening burst makes all clients
 // issue their request for a shard that has no fragment yet at the same moment.
 type vc29Barrier struct {
@@ -559,6 +632,10 @@ func TestVerifC29_API(t *testing.T) {
 		for c := range plans {
 			n := rapid.IntRange(10, 40).Draw(t, "nOps")
 			key.WriteString("|")
+			for i := 0; i < vc29NKeyed; i++ {
+				kr := vc29Req{Kind: "setKeyed", Burst: true, KIdx: i, CKey: fmt.Sprintf("c%d-%d", i, c), RKey: fmt.Sprintf("r%d-%d", i, c)}
+				plans[c] = append(plans[c], kr)
+			}
 			for _, b := range burst {
 				b.Row = uint64(rapid.IntRange(0, 1).Draw(t, "burstRow"))
 				b.Col = uint64(rapid.IntRange(0, 1).Draw(t, "burstCol"))
@@ -588,6 +665,17 @@ func TestVerifC29_API(t *testing.T) {
 			{"t", OptFieldTypeTime(TimeQuantum("YMD"))}, {"v", OptFieldTypeInt(-1000, 1000)}} {
 			if _, err := node.API.CreateField(ctx, index, f.name, f.opt); err != nil {
 				t.Fatalf("create field %s: %v", f.name, err)
+			}
+		}
+		// fresh keyed indexes: no column key, no row key yet
+		for i := 0; i < vc29NKeyed; i++ {
+			kidx := vc29KeyedIndex(index, i)
+			if _, err := node.API.CreateIndex(ctx, kidx, IndexOptions{Keys: true}); err != nil {
+				t.Fatalf("create keyed index: %v", err)
+			}
+			defer node.API.DeleteIndex(ctx, kidx)
+			if _, err := node.API.CreateField(ctx, kidx, "kf", OptFieldTypeSet(CacheTypeRanked, 100), OptFieldKeys()); err != nil {
+				t.Fatalf("create keyed field: %v", err)
 			}
 		}
 		// constant source rows of Store, and one touch of every (field, shard) so
@@ -664,6 +752,15 @@ func TestVerifC29_API(t *testing.T) {
 		for c, err := range errs {
 			if err != nil {
 				t.Fatalf("C29 violated: client %d: a valid request failed: %v (GOMAXPROCS=%d; requests marked burst are issued by all clients at the same moment)\nplan of the client: %v", c, err, procs, plans[c])
+			}
+		}
+		clientIDs := make([]int, nClients)
+		for c := range clientIDs {
+			clientIDs[c] = c
+		}
+		for i := 0; i < vc29NKeyed; i++ {
+			if err := vc29CheckKeyed(node, index, i, clientIDs); err != nil {
+				t.Fatalf("C29 violated: key translation is not consistent with any sequential order of the %d concurrent first-ever Set calls (GOMAXPROCS=%d): %v", nClients, procs, err)
 			}
 		}
 		var all []vc29ApiRec
